@@ -9,6 +9,7 @@ package lnwallet
 //@ inline-func (github.com/lightningnetwork/lnd/chanstate.ChannelType).*
 //@ load-pkg github.com/lightningnetwork/lnd/lntypes
 //@ inline-func (github.com/lightningnetwork/lnd/lntypes.ChannelParty).*
+//@ inline-pkg github.com/lightningnetwork/lnd/lntypes
 //@
 //@ extern func (lnwire.MilliSatoshi) ToSatoshis
 //@   ensures result == fdiv(m, 1000)
@@ -414,3 +415,21 @@ package lnwallet
 //@   site call lookupHtlc nth 0: assert arg(0) == localUpdateLog && arg(1) == dynptr(m, *lnwire.UpdateFulfillHTLC).ID
 //@   site call lookupHtlc nth 1: assert arg(0) == localUpdateLog && arg(1) == dynptr(m, *lnwire.UpdateFailHTLC).ID
 //@   site call lookupHtlc nth 2: assert arg(0) == localUpdateLog && arg(1) == dynptr(m, *lnwire.UpdateFailMalformedHTLC).ID
+//@
+//@ func (lc *LightningChannel) evaluateHTLCView
+//@   props C01
+//@   requires view != nil
+//@   loop * havoc
+//@   let cp = ite(party == lntypes.Local, lntypes.Remote, lntypes.Local)
+//@   let credited = ite(entry.EntryType == Settle, party, cp)
+//@   let rmv = ite(whoseCommitChain == lntypes.Local, entry.removeCommitHeights.Local, entry.removeCommitHeights.Remote)
+//@   let effective = rmv == 0 && !(entry.EntryType == Settle && retn(fetchParent, 0).EntryType == NoOpAdd)
+//@   loop 1 step effective ==>
+//@        balanceDeltas.Local == swrap(prev(balanceDeltas.Local) + ite(credited == lntypes.Local, swrap(entry.Amount, 64), 0), 64) &&
+//@        balanceDeltas.Remote == swrap(prev(balanceDeltas.Remote) + ite(credited == lntypes.Remote, swrap(entry.Amount, 64), 0), 64)
+//@   loop 1 step rmv != 0 ==> balanceDeltas.Local == prev(balanceDeltas.Local) && balanceDeltas.Remote == prev(balanceDeltas.Remote)
+//@   site call fetchParent: assert arg(1) == entry && arg(2) == whoseCommitChain && arg(3) == cp
+//@   let addH = ite(whoseCommitChain == lntypes.Local, entry.addCommitHeights.Local, entry.addCommitHeights.Remote)
+//@   let debit = ite(addH == 0, swrap(entry.Amount, 64), 0)
+//@   loop 3 step balanceDeltas.Local == swrap(prev(balanceDeltas.Local) - ite(party == lntypes.Local, debit, 0), 64) &&
+//@        balanceDeltas.Remote == swrap(prev(balanceDeltas.Remote) - ite(party == lntypes.Remote, debit, 0), 64)
